@@ -494,7 +494,7 @@ class Unit:
         expr = str(self.expr)
         base_value = copy.deepcopy(self.base_value)
         base_offset = copy.deepcopy(self.base_offset)
-        dimensions = copy.deepcopy(self.dimensions)
+        dimensions = self.dimensions
         if deep:
             registry = copy.deepcopy(self.registry)
         else:
